@@ -296,8 +296,17 @@ def o10(tier):
     return r
 
 
+def o11(tier):
+    """the sender's own announcement keeps the epoch it was created in when its relay echo confirms it"""
+    from props import C02
+    r = C02.o3(tier)
+    r.oid = 'O11'
+    r.title = 'own echo (shared with C02-O3): confirming an own message changes its state only -- its epoch is not re-stamped with the group\'s current epoch, so the epoch hint of an announced file still names the epoch whose secret encrypted it'
+    return r
+
+
 def run(tier, seed, only=None):
-    obs = [('O1', o1), ('O2', o2), ('O3', o3), ('O4', o4), ('O5', o5), ('O6', o6), ('O7', o7), ('O8', o8), ('O9', o9), ('O10', o10)]
+    obs = [('O1', o1), ('O2', o2), ('O3', o3), ('O4', o4), ('O5', o5), ('O6', o6), ('O7', o7), ('O8', o8), ('O9', o9), ('O10', o10), ('O11', o11)]
     out = []
     for k, f in obs:
         if only and k not in only:
